@@ -310,6 +310,10 @@ func revealInstance(sc *SpecCtx, x *Sx) string {
 	if !x.IsL || len(x.List) == 0 {
 		return "true"
 	}
+	if x.Head() == "old" && len(x.List) == 2 {
+		// (old (f args)): the instance over the entry heap (for spec functions of heap data the function never writes)
+		return revealInstance(sc.inOld(), x.List[1])
+	}
 	app := sc.expand(x)
 	d := &Sx{IsL: true, List: append([]*Sx{A(x.List[0].Atom + "!def")}, x.List[1:]...)}
 	return fmt.Sprintf("(= %s %s)", app, sc.expand(d))
